@@ -37,16 +37,21 @@ def decorate(tables, rng, n_ind=3, n_pop=2, p_ind=0.6, p_pop=0.6, edge_metadata=
     return t
 
 
-def abstract_of(tables, cmap, tmap):
+def abstract_of(tables, cmap, tmap, tscale=1):
     t = tables
     itags = [tag(r.metadata, "i") for r in t.individuals]
     ptags = [tag(r.metadata, "p") for r in t.populations]
 
     def tm(x):
-        return -1 if tskit.is_unknown_time(x) else tmap.inv.get(float(x), -2)   # -2: a time outside the generated grid
+        if tskit.is_unknown_time(x):
+            return -1
+        v = tmap.inv.get(float(x))
+        if v is None:
+            return -2      # a time outside the generated grid
+        return int(round(v * tscale))
     a = dict(
         L=cmap.back(t.sequence_length),
-        time=[tmap.back(x) for x in t.nodes.time],
+        time=[int(round(tmap.back(x) * tscale)) for x in t.nodes.time],
         flags=[int(f) & 1 for f in t.nodes.flags],
         rawflags=[int(f) for f in t.nodes.flags],
         edges=[dict(left=cmap.back(e.left), right=cmap.back(e.right), parent=int(e.parent), child=int(e.child), tag=tag(e.metadata, "e"))
@@ -61,7 +66,7 @@ def abstract_of(tables, cmap, tmap):
         pop_tag=[ptags[x] if 0 <= x < len(ptags) else -1 for x in t.nodes.population],
         ind_rows=itags, pop_rows=ptags,
         migs=[dict(left=cmap.back(g.left), right=cmap.back(g.right), node=int(g.node), source=int(g.source), dest=int(g.dest),
-                   time=tmap.back(g.time), tag=tag(g.metadata, "g")) for g in t.migrations],
+                   time=int(round(tmap.back(g.time) * tscale)), tag=tag(g.metadata, "g")) for g in t.migrations],
         ind_parents=[[int(p) for p in r.parents] for r in t.individuals],
     )
     return a
